@@ -70,6 +70,10 @@ QUERIES = ['objects_geometry', 'objects_light', 'objects_camera', 'shapes', 'tri
            'bound_triangleset', 'imagedata', 'inputlist_use']
 
 
+class Inconsistent(Exception):
+    pass
+
+
 def do_query(doc, q, r):
     """returns a comparable result"""
     if q.startswith('objects_'):
@@ -99,7 +103,14 @@ def do_query(doc, q, r):
             for o in s.objects('geometry'):
                 for p in o.primitives():
                     if hasattr(p, 'triangleset') and len(p):
-                        out.append(len(p.triangleset()))
+                        ts = p.triangleset()
+                        # the triangulation of a BOUND primitive is bound the same way: same transformed vertex (and normal) data
+                        if not numpy.array_equal(numpy.asarray(ts.vertex), numpy.asarray(p.vertex), equal_nan=True) or \
+                                (p.normal is not None and ts.normal is not None and
+                                 not numpy.array_equal(numpy.asarray(ts.normal), numpy.asarray(p.normal), equal_nan=True)):
+                            raise Inconsistent('triangleset() of a bound %s of geometry %s does not carry the vertex/normal data of that bound primitive'
+                                               % (type(p).__name__, o.original.id))
+                        out.append((len(ts), canon(ts.vertex)))
         return out
     if q == 'index0':
         return [canon(p[0]) for g, p in prims if len(p)]
@@ -135,7 +146,7 @@ def make_pair(kind, seed):
     """document and identical twin, with an aux loader so that image data can be asked for"""
     docs = []
     for _ in range(2):
-        d, gen = c02.base_doc(kind, seed)
+        d, gen = c02.base_doc(kind, seed, dict(anyaxis=True))     # rotation axes need not be unit vectors
         d.getFileData = lambda fname: b'bytes of ' + fname.encode()
         docs.append(d)
     # a document without <created>/<modified> gets the time of loading: give the twins the same instant
@@ -162,6 +173,8 @@ def check_history(kind, seed, nq):
                 doc.save()
                 continue
             res = do_query(doc, q, r)
+        except Inconsistent as e:
+            return ('inconsistent:' + q, '%s (history %s)' % (e, hist))
         except Exception as e:
             return ('query-raised:%s:%s' % (q, type(e).__name__), 'read-only operation %s raised %s: %s (history %s)' % (q, type(e).__name__, str(e)[:120], hist))
         if q in first and first[q] != res:
@@ -169,9 +182,8 @@ def check_history(kind, seed, nq):
         first.setdefault(q, res)
     a = copy.deepcopy(before)
     b = snap.snapshot(doc)
-    if 'save' in hist:
-        c03._drop_matrices(a)
-        c03._drop_matrices(b)
+    # saving recomputes the node matrices from the transforms: equal up to float32 rounding (snap.diff compares `.matrix[` entries
+    # with a relative tolerance of 2e-5), never different in value
     df = snap.diff(a, b)
     if df:
         return ('model-changed', 'read-only operations %s changed the model: %s' % (hist, '; '.join(df[:3])))
